@@ -14,7 +14,8 @@
    concurrent Deletes).  Refuted with two overlapping writers (C03_multi_writer_refuted): that is
    known finding C03/1 — publication is not ordered with commits. *)
 From SC Require Import Base.Prelude Resource.Impl Resource.Spec Resource.Pull Resource.ImplProofs Resource.PullProofs
-  Resource.Flat Resource.FlatProofs Resource.Judge Conc.Lts Conc.LtsProofs Conc.SubProofs Conc.FlatInst Conc.Judge.
+  Resource.Flat Resource.FlatProofs Resource.Judge Excess.Change Excess.MergeExcess
+  Conc.Lts Conc.LtsProofs Conc.SubProofs Conc.FlatInst Conc.Judge Conc.Lossy.
 
 Section C03.
   Variable M : Type.
@@ -114,14 +115,43 @@ Theorem C03_update_delete_refuted :
 Proof. vm_compute. repeat split; reflexivity. Qed.
 Print Assumptions C03_update_delete_refuted.
 
+(* ---------- the pinned commit: a subscription receives again what its seed already shows ---------- *)
+Definition add_del : list fcall := [FAdd "a" (mkF 10 0 0) plain_wo; FDelete "a" plain_wo; FSubC (mkFRO None false None)].
+
+(* ONE writer at a time (Add returns before Delete starts; st_overlap = false), the Pull opened
+   between Add's save and its publication.  Pinned commit (v0): the bus delivers [ADD a; REMOVE a]
+   after a seed that already contains a.  With backpressure that is harmless (the fold ends
+   without a); WITHOUT backpressure and a reader that is behind, mergeCollectionExcess (C09's
+   model) merges the repeated ADD and the REMOVE into nothing: the subscriber receives the seed
+   only and keeps a for ever while List is empty. *)
+Theorem C03_lossy_duplicate_add_v0_refuted :
+  let s := f_run true None add_del [0; 0; 2; 0; 1; 1]%nat None [] in
+  all_done s = true /\ st_overlap s = false /\ final_list (w_c (st_w s)) = [] /\
+  map (fun u => map (fun e => (ce_id e, kind_code (ce_kind e))) (cs_evs u)) (st_csubs s) = [[("a"%string, 1); ("a"%string, 3)]] /\
+  map (fun u => cview fr_filter u) (st_csubs s) = [[]] /\
+  map (fun u => List.length (lossy_stalled_stream u)) (st_csubs s) = [1%nat] /\
+  map (fun u => lossy_view u (id_tok "a")) (st_csubs s) = [Some 10].
+Proof. vm_compute. repeat split; reflexivity. Qed.
+Print Assumptions C03_lossy_duplicate_add_v0_refuted.
+
+(* the repaired code numbers the commits and drops the changes the snapshot already shows, before
+   the merger: the bus delivers [REMOVE a] only and the lossy view converges as well *)
+Example C03_lossy_duplicate_add_fixed :
+  let s := f_run false None add_del [0; 0; 2; 0; 1; 1]%nat None [] in
+  all_done s = true /\ final_list (w_c (st_w s)) = [] /\
+  map (fun u => map (fun e => (ce_id e, kind_code (ce_kind e))) (cs_evs u)) (st_csubs s) = [[("a"%string, 3)]] /\
+  map (fun u => cview fr_filter u) (st_csubs s) = [[]] /\
+  map (fun u => lossy_view u (id_tok "a")) (st_csubs s) = [None].
+Proof. vm_compute. repeat split; reflexivity. Qed.
+
 (* ---------- non-vacuity ---------- *)
 (* one writer, subscription opened between its save and its publication: the seed already shows
-   the new value and the event is delivered once more — the view is right, nothing overlaps *)
+   the new value, the publication is not delivered a second time, nothing overlaps *)
 Example C03_nonvacuous_single_writer :
   let s := f_run false None [FUpdate "a" (mkF 7 0 0) plain_wo; FSubC (mkFRO (Some [Fa]) false None)]
                  [0; 0; 1; 0]%nat None [("a"%string, mkF 1 5 0, 300)] in
   all_done s = true /\ st_overlap s = false /\
-  map (fun u => List.length (cstream fr_filter u)) (st_csubs s) = [2%nat] /\
+  map (fun u => List.length (cstream fr_filter u)) (st_csubs s) = [1%nat] /\
   map (fun u => cview fr_filter u) (st_csubs s) = [[("a"%string, mkF 7 0 0)]] /\
   c_list fr_filter (w_c (st_w s)) (Some [Fa]) None = [("a"%string, mkF 7 0 0)].
 Proof. vm_compute. repeat split; reflexivity. Qed.
